@@ -2,6 +2,7 @@ package checks
 
 import (
 	"fmt"
+	"sync"
 	"time"
 
 	"verif/internal/ev"
@@ -92,7 +93,17 @@ func c0102(rep *ev.Reporter, tier string, judge func(c *Case, tr *hx.Trace, w *r
 		nShapes, maxCycle = 99, 6
 		bud = NewBudget(9 * time.Minute)
 	}
-	gen := func(emit0 func(Case)) {
+	locCount := map[string]int{}
+	var locMu sync.Mutex
+	gen := func(emit00 func(Case)) {
+		emit0 := func(c Case) {
+			if c.Meta != nil {
+				locMu.Lock()
+				locCount[c.Meta["loc"]]++
+				locMu.Unlock()
+			}
+			emit00(c)
+		}
 		emit := func(c Case) {
 			c.ReuseDC = true // applies to programs calling Forget / Changed
 			c.Histories = true
@@ -142,8 +153,9 @@ func c0102(rep *ev.Reporter, tier string, judge func(c *Case, tr *hx.Trace, w *r
 		})
 	}
 	RunFamily(rep, gen, 1500, bud, judge)
+	rep.Coverage["cases_by_location"] = locCount
 	rep.Assumptions = append(rep.Assumptions,
-		"fact states in which two different syntactic paths alias through pointers are excluded (invalidation is syntactic by design); aliasing through selectors of one container is included",
+		"fact states in which two names or two syntactic paths denote ONE Go object are included as a family of their own (coarse signatures): invalidation is by variable name, the other-path cells are a known finding, the same-path cells are controls; aliasing through selectors of one container is part of the main matrix",
 		"fact methods in conditions are pure functions of their arguments; hidden receiver state changes are announced with Forget/Changed",
 		"reference evaluator implements the documented semantics with standard-library reflection only")
 }
